@@ -6,6 +6,7 @@
 #include "common/asmgen.hpp"
 #include "common/listing.hpp"
 #include "adapters/tools.hpp"
+#include <sys/wait.h>
 
 using namespace mc;
 static Ctx ctx;
@@ -53,6 +54,38 @@ static void judge(const std::string &src, uint64_t order, const std::string &fam
   }
 }
 
+
+// ---- process level: the built executable itself (argument parsing, the catch site in main, exit status, stderr, output file)
+static int runTool(const std::vector<std::string> &argv, const std::string &cwd, std::string &err, double timeout) {
+  std::string errPath = cwd + "/stderr.txt";
+  pid_t p = fork();
+  if (p == 0) {
+    if (chdir(cwd.c_str())) _exit(126);
+    std::vector<char *> a; for (auto &s : argv) a.push_back((char *)s.c_str()); a.push_back(nullptr);
+    if (!freopen("/dev/null", "rb", stdin) || !freopen("/dev/null", "wb", stdout) || !freopen(errPath.c_str(), "wb", stderr)) _exit(126);
+    execv(a[0], a.data()); _exit(127);
+  }
+  double t0 = now(); int status = 0;
+  while (true) { pid_t r = waitpid(p, &status, WNOHANG); if (r == p) break; if (now() - t0 > timeout) { kill(p, SIGKILL); waitpid(p, &status, 0); return -999; } usleep(300); }
+  err = slurp(errPath);
+  return WIFEXITED(status) ? WEXITSTATUS(status) : -WTERMSIG(status);
+}
+// runs `tool src [-o out | listingOpt]` and judges the contract; returns "" or what is wrong
+static std::string judgeProcess(const std::string &tool, const std::string &src, const std::string &dir, const std::string &listingOpt, std::string &kind) {
+  spit(dir + "/in.src", src); unlink((dir + "/out.bin").c_str()); unlink((dir + "/a.out").c_str());
+  std::string err; std::vector<std::string> av = {tool, "in.src"};
+  if (listingOpt.empty()) { av.push_back("-o"); av.push_back("out.bin"); } else av.push_back(listingOpt);
+  int rc = runTool(av, dir, err, 60);
+  bool emitted = access((dir + "/out.bin").c_str(), F_OK) == 0 || access((dir + "/a.out").c_str(), F_OK) == 0;
+  if (rc == -999) { kind = "hang"; return "did not terminate within 60 s"; }
+  if (rc < 0) { kind = "crash"; return "terminated by signal " + std::to_string(-rc) + " (stderr: " + err.substr(0, 120) + ")"; }
+  if (rc == 0 && listingOpt.empty() && !emitted) { kind = "contract"; return "exit status 0 but no binary"; }
+  if (rc != 0 && emitted) { kind = "contract"; return "non-zero status but a binary was left behind"; }
+  if (rc != 0 && err.find("Error") == std::string::npos) { kind = "contract"; return "non-zero status " + std::to_string(rc) + " without a diagnostic (stderr: " + err.substr(0, 120) + ")"; }
+  if (rc == 0 && err.find("Error") != std::string::npos) { kind = "contract"; return "diagnostic printed but exit status 0"; }
+  return "";
+}
+
 static std::vector<std::string> tokenizeAsm(const std::string &src) {
   std::vector<std::string> t; std::string cur; bool c = false;
   for (char ch : src) { if (c) { if (ch == '\n') c = false; continue; } if (ch == '#') { c = true; if (!cur.empty()) { t.push_back(cur); cur.clear(); } continue; } if (isspace((unsigned char)ch)) { if (!cur.empty()) { t.push_back(cur); cur.clear(); } continue; } cur += ch; }
@@ -84,7 +117,7 @@ int main(int argc, char **argv) {
   auto B2 = std::make_shared<robust::Strings>(bytes, 2);
   fams.push_back({"bytes<=2", [=] { return B2->total; }, [=](uint64_t i, std::string *) { return B2->make(i); }, 64});
   // (a') all strings over a lexical alphabet
-  std::vector<std::string> lexAlpha = {"A", "B", "R", "x", "0", "1", "9", "#", "-", "_", " ", "\n", "\t", "\x80", "\xff", ".", "D"};
+  std::vector<std::string> lexAlpha = {"A", "B", "R", "x", "0", "1", "9", "#", "-", "_", " ", "\n", "\t", "\x80", "\xff", ".", "D", "%", "$", "{"};
   auto L = std::make_shared<robust::Strings>(lexAlpha, ctx.thorough() ? 5 : 4);
   fams.push_back({"lexical<=" + std::to_string(L->maxLen), [=] { return L->total; }, [=](uint64_t i, std::string *) { return L->make(i); }, 256});
   // (b) all token strings
@@ -145,10 +178,35 @@ int main(int argc, char **argv) {
     rep.st.add("family:" + f.name, r.complete ? n : 0);
     if (!r.complete) rep.caps.push_back("family " + f.name + ": incomplete (chunks " + std::to_string(r.chunksDone) + "/" + std::to_string(r.chunksTotal) + ")");
   }
+  // ---- the built hexasm executable: hostile list, lexical strings <= 2, token strings <= 2, in binary and --instrs mode
+  if (getenv("HEX_CLI") && !ctx.expired()) {
+    std::string tool = std::string(getenv("HEX_CLI")) + "/hexasm";
+    std::vector<std::string> inputs = *S;
+    robust::Strings L2(lexAlpha, 2), T2(lexemes, 2, "\n");
+    for (uint64_t i = 0; i < L2.total; i++) inputs.push_back(L2.make(i));
+    for (uint64_t i = 0; i < T2.total; i++) inputs.push_back(T2.make(i));
+    for (const char *x : {"LDAC 100 % 3\n", "LDAC %d\n", "BR %s\n", "%n%n%n\n", "LDAC 1 %\n", "x%1$s\nBR x%1$s\n", "BR lab%\n"}) inputs.push_back(x);
+    phase(ctx, "process level: " + std::to_string(inputs.size()) + " inputs x 2 modes through the built hexasm");
+    auto body = [&](uint64_t b, uint64_t e, const std::set<uint64_t> &skip, Stats &st, volatile uint64_t *cur) {
+      std::string dir = ctx.scratch + "/pl" + std::to_string(b); mkdir(dir.c_str(), 0755);
+      for (uint64_t i = b; i < e; i++) {
+        *cur = i; if (skip.count(i)) continue;
+        for (const char *mode : {"", "--instrs"}) {
+          std::string kind, w = judgeProcess(tool, inputs[i], dir, mode, kind);
+          st.add("process_runs");
+          if (!w.empty()) st.violation("process:" + kind + ":" + srcClass(inputs[i]), i, Obj().kv("family", "process").kv("mode", mode).kv("what", w).kv("source_hex", hexs(inputs[i].substr(0, 4096))).kv("source", inputs[i].substr(0, 200)).str());
+        }
+      }
+      std::string rm = "rm -rf '" + dir + "'"; if (system(rm.c_str())) {}
+    };
+    auto r = run_chunks(ctx, "proc", inputs.size(), 64, body, [&](uint64_t i) { return Obj().kv("family", "process").kv("source_hex", hexs(inputs[i].substr(0, 4096))).str(); }, 120, (size_t)1 << 44);
+    rep.st.merge(r.stats);
+    if (!r.complete) rep.caps.push_back("process level: incomplete");
+  }
   auto &c = rep.st.c;
-  rep.evaluations = c["inputs"] * 2; rep.states = c["inputs"]; rep.transitions = c["inputs"] * 2; rep.validated = c["inputs"];
+  rep.evaluations = c["inputs"] * 2 + c["process_runs"]; rep.states = c["inputs"]; rep.transitions = c["inputs"] * 2; rep.validated = c["inputs"];
   rep.nontrivial = c["accepted"] + (uint64_t)rep.st.outcomes.size();
-  rep.rule = "inputs: every byte string of length <=2, every string of length <=4 (thorough 5) over a 17-symbol lexical alphabet, every token string of length <=4 (5) over hexasm's 23 source tokens, "
+  rep.rule = "inputs: every byte string of length <=2, every string of length <=4 (thorough 5) over a 20-symbol lexical alphabet, every token string of length <=4 (5) over hexasm's 23 source tokens, "
              "every single-token edit (delete/duplicate/swap/replace by each token or hostile literal) of the shipped .S files, a hostile hand list, and the C05 corpus for layout termination; each input is run "
              "under two heap/stack fill patterns in an ASan+UBSan build; distinct by construction; distinct_nontrivial counts accepted inputs plus distinct diagnostics";
   rep.bounds.kv("token_string_length", (uint64_t)T->maxLen).kv("lexical_string_length", (uint64_t)L->maxLen);
